@@ -22,7 +22,7 @@ from mc.common import call, Raised, DimArray, Dataset, Axis, py, same_list
 ID = "C13"
 TITLE = "a Dataset's variables always share the Dataset's axes"
 RULE = ("breadth-first search over histories of Dataset mutations (alphabet in the module docstring, ~60 parameterised events, keys a/b/c, "
-        "dims x/y/z/u) from 4 start states (empty, constructed from equal-label arrays, constructed from differing labels = outer join, "
+        "dims x/y/z/u) from 5 start states (differing on two dimensions at once; empty, constructed from equal-label arrays, constructed from differing labels = outer join, "
         "constructed with an unsorted axis; events include the inplace=False variants - whose returned copy is the Dataset from then on - chained "
         "and swapped rename_keys mappings a float32 axis relabelled with a value it cannot hold, a variable built on the dataset's own axes object), de-duplicated on the canonical form; every transition is executed on the real Dataset in "
         "lock-step with RefDS and all invariants are evaluated in every reached state; non-trivial = the transition changes the state "
@@ -42,6 +42,7 @@ POOL = {   # arrays that can be assigned: dims + labels (values derive from the 
     "zx_bad": (["z", "x"], [ZL, [10, 30]]),     # new axis z is listed BEFORE the mismatching x
     "xz": (["x", "z"], [XL, ZL]), "z": (["z"], [ZL]), "u": (["u"], [UL]), "ubad": (["u"], [[1, 2, 4]]),
     "xw": (["x", "w"], [XL, [7, 8]]), "zbad": (["z"], [[2451559.0, 2451560.0]]),
+    "vtrunc": (["v"], [[1, 2]]),     # integer labels equal to the TRUNCATED labels of v4 (1.5, 2.5): they disagree with them
     "v4": (["v"], [V4L]),       # single-precision labels: relabelled with a value that float32 cannot hold (V4ALT)
 }
 NONDA = {"list2": [1.5, 2.5], "scalar": 4.0}
@@ -50,7 +51,7 @@ FRESH = ["p", "q", "r", "s"]
 
 
 def bounds(tier):
-    return {"depth": 3 if tier == "quick" else 4, "keys": KEYS, "pool": sorted(POOL) + sorted(NONDA), "start_states": 4}
+    return {"depth": 3 if tier == "quick" else 4, "keys": KEYS, "pool": sorted(POOL) + sorted(NONDA), "start_states": 5}
 
 
 def kind_of(labels):
@@ -135,7 +136,7 @@ def _keys(o):
 # events
 # ------------------------------------------------------------------------------------------
 def start_states():
-    return [["start", "empty"], ["start", "equal"], ["start", "differ"], ["start", "unsorted"]]
+    return [["start", "empty"], ["start", "equal"], ["start", "differ"], ["start", "unsorted"], ["start", "differ2"]]
 
 
 def build_start(which):
@@ -153,6 +154,17 @@ def build_start(which):
         sa = D.spec(["x", "y"], [[30, 10, 20], ["b", "a"]], ["i", "O"], base=3)
         ds = Dataset(a=D.build_impl(sa))
         ref.assign("a", sa["dims"], sa["labels"], D.build_ref(sa).vals)
+        return ds, ref
+    if which == "differ2":
+        # labels differing on TWO dimensions at once, the second variable listing its dimensions in the other order: outer join on both
+        sa = D.spec(["x", "y"], [[10, 20], ["a", "b"]], ["i", "O"], base=1)
+        sb = D.spec(["y", "x"], [["b", "c"], [20, 30]], ["O", "i"], base=2)
+        ds = Dataset([("a", D.build_impl(sa)), ("b", D.build_impl(sb))])
+        ra, rb = D.build_ref(sa), D.build_ref(sb)
+        va = np.full((3, 3), np.nan); va[:2, :2] = ra.vals
+        vb = np.full((3, 3), np.nan); vb[1:, 1:] = rb.vals
+        ref.assign("a", ["x", "y"], [[10, 20, 30], ["a", "b", "c"]], va)
+        ref.assign("b", ["y", "x"], [["a", "b", "c"], [10, 20, 30]], vb)
         return ds, ref
     # differing labels: the constructor must align (outer join) first
     sa = D.spec(["x"], [[10, 20]], ["i"], base=1)
@@ -429,6 +441,8 @@ class Space(object):
         return ref
 
     def events(self, hist, tier):
+        if hist[0][1] == "differ2" and tier == "quick":
+            return []       # quick tier: the construction itself is checked; the thorough tier explores from this state as well
         return enabled(self._replay_ref(hist), tier)
 
     def run(self, hist):
